@@ -53,15 +53,15 @@ func TestC21(t *testing.T) {
 		h := newHistory(t, wo, checkProfile(), sim.BlockOpts{MaxTxs: 10})
 		used := map[types.Hash]bool{}
 		type pre struct {
-			is                    bool
-			chk                   *check.Check
-			data                  *tx.RedeemCheckData
-			redeemer, issuer      types.Address
-			gasPrice              uint32
-			gasCoin               types.CoinID
-			chain                 types.ChainID
+			is                     bool
+			chk                    *check.Check
+			data                   *tx.RedeemCheckData
+			redeemer, issuer       types.Address
+			gasPrice               uint32
+			gasCoin                types.CoinID
+			chain                  types.ChainID
 			issC, issG, redC, redG *big.Int
-			height                uint64
+			height                 uint64
 		}
 		var p pre
 		second, oneFail, acceptedN := 0, 0, 0
